@@ -466,6 +466,19 @@ fn mutate_one(x: &Xorb, mut b: Vec<u8>, m: &str) -> Vec<u8> {
             }
         },
         "append" => b.extend_from_slice(&unhex(p[1])),
+        "gap" => {
+            // bytes the footer does not account for, between the last chunk it lists and the footer itself
+            let end = *x.cas.info.chunk_boundary_offsets.last().unwrap() as usize;
+            let ins = unhex(p[1]);
+            b.splice(end..end, ins);
+        },
+        "gapchunk" => {
+            // a whole extra chunk (a copy of the first one) there
+            let end = *x.cas.info.chunk_boundary_offsets.last().unwrap() as usize;
+            let e = x.cas.info.chunk_boundary_offsets[0] as usize;
+            let first: Vec<u8> = b[..e].to_vec();
+            b.splice(end..end, first);
+        },
         "nofooter" => {
             let end = *x.cas.info.chunk_boundary_offsets.last().unwrap() as usize;
             b.truncate(end);
